@@ -66,7 +66,7 @@ func New(o Options) (*Rig, error) {
 	cfg.Quota.Connections.Enabled = false
 	cfg.Quota.Logins.Enabled = false
 	cfg.ConnectionTimeout = configutil.Duration(3 * time.Second)
-	cfg.ReadTimeout = configutil.Duration(10 * time.Second)
+	cfg.ReadTimeout = configutil.Duration(30 * time.Minute) // fake clients send no keep-alives
 	for name, b := range o.Backends {
 		cfg.Servers[name] = b.Addr()
 		b.Name = name
